@@ -17,6 +17,7 @@ Constraints == {
     <<"CREATE", "UNIQUE", "INDEX", "idx_Item", "ON", "Item", "(", "B", ")">>,
     <<"ADD", "CHECK", "(", "Items", ">", "MyItem", "+", "item", "+", "Orderly", "+", "fk_Order", "+", "x2Item", ")">>,
     <<"_SELECT", "KEY", "(", "A", ",", "B", ")">>,
+    <<"_SELECT", "KEY", "(", "K", ")">>,
     <<"ADD", "CHECK", "(", "B", "<>", "'order'", "AND", "A", "<", "10", ")">> }
 
 Queries == {
